@@ -20,7 +20,7 @@ from props import _reduce_util as U
 PROP = "C32"
 READY = True
 DRIVER = "dm_reduce"
-LEAN_MODULES = ["DaskModel.Props.C32"]
+LEAN_MODULES = ["DaskModel.Props.C32", "DaskModel.Props.C32xData"]
 CASE_TIMEOUT_S = 20
 METHODS = ["linear", "lower", "higher", "midpoint", "nearest"]
 LEVEL_TEXT = (
@@ -269,7 +269,131 @@ def case_joint(ctx, inp):
     ctx.branch(f"joint×{len(inp['items'])}")
 
 
-CASES = {"joint": case_joint, "merge": case_merge, "pct": case_pct, "nanpct": case_nanpct}
+def _index_rounding_differs(n, qf, qx):
+    """NumPy computes the virtual index (n-1)*(q/100) in float64; the model computes it exactly. When floor / ceil /
+    round-half-even of the two differ (an exact integer or half-integer index missed by one ulp) NumPy picks a
+    neighbouring element: float behaviour outside the exact model — such a chunk is compared by the oracle only."""
+    import math
+    vf = (n - 1) * (qf / 100.0)
+    vx = (n - 1) * qx / 100
+    fx = vx.numerator // vx.denominator
+    if math.floor(vf) != fx or math.ceil(vf) != -((-vx.numerator) // vx.denominator):
+        return True
+    return int(np.around(vf)) != (fx if vx - fx < Fraction(1, 2) else fx + 1 if vx - fx > Fraction(1, 2) else fx + (fx % 2))
+
+
+def case_pctdata(ctx, inp):
+    """Extension round: the chunk side (`_percentile` = NumPy's percentile of one block at [0] + q + [100]) and the
+    whole 1-d pipeline against the Lean model `ChunkPercentile` (exact rationals), on the intermediates of the REAL graph."""
+    import dask
+    da = _da()
+    a = np.array([float(Fraction(v)) for v in inp["data"]])
+    if inp.get("int"):
+        a = a.astype(np.int64)
+    chunks = tuple(inp["chunks"])
+    method = inp["method"]
+    fq = [Fraction(q) for q in inp["q"]]
+    qf = [float(q) for q in fq]
+    calc_q = [Fraction(0)] + fq + [Fraction(100)]
+    in_range = all(0 <= q <= 100 for q in fq)
+    x = da.from_array(a, chunks=(chunks,))
+    y = da.percentile(x, qf, method=method)
+    g = dict(y.__dask_graph__())
+    ckeys = sorted(k for k in g if isinstance(k, tuple) and isinstance(k[0], str) and k[0].startswith("percentile_chunk-"))
+    ctx.eq("one percentile_chunk task per block", len(chunks), len(ckeys))
+    blocks = [blk for _, _, blk in U.blocks_c_order(a, (chunks,))]
+    enc_blocks = [[enc_rat(Fraction(float(v))) for v in blk.tolist()] for blk in blocks]
+    exact = True
+    real_parts = None
+    with warnings.catch_warnings():
+        warnings.simplefilter("ignore")
+        try:
+            real_parts = dask.get(g, ckeys)
+        except ValueError:
+            real_parts = None
+    # function level: every chunk task of the real graph vs the Lean chunk function
+    if real_parts is None:
+        if in_range or a.size == 0:
+            ctx.fail("a percentile_chunk task raised ValueError for percentiles in [0, 100]", observed="raised")
+            return
+        for eb in enc_blocks:
+            if eb:
+                ctx.eq("np.percentile raises for a percentile outside [0, 100]", "raised",
+                       str(ctx.lean(Sym("chunkpct"), Sym(method), [enc_rat(q) for q in calc_q], eb)[0]))
+        ctx.branch("q outside [0, 100]: chunk raises")
+    else:
+        for i, (blk, eb, (rv, rn)) in enumerate(zip(blocks, enc_blocks, real_parts)):
+            r = ctx.lean(Sym("chunkpct"), Sym(method), [enc_rat(q) for q in calc_q], eb)
+            if len(blk) == 0:
+                ctx.eq("_percentile of an empty block is (None, 0)", [0, "none"], [rn, "none" if rv is None else "some"])
+                ctx.eq("Lean chunk of an empty block", [0, "none"], [r[0], "none" if r[1] is None else "some"])
+                continue
+            if not in_range:
+                ctx.fail("np.percentile accepted a percentile outside [0, 100]", observed=np.asarray(rv).tolist())
+                return
+            ctx.eq("N of the chunk", len(blk), int(rn))
+            if any(_index_rounding_differs(len(blk), float(q), q) for q in calc_q) and method != "linear":
+                exact = False
+                ctx.branch("float index rounding in NumPy (oracle only)")
+                continue
+            mv = dec_rats(r[1])
+            sc = max(1.0, float(np.abs(blk).max()))
+            if r[0] != len(blk) or len(mv) != len(calc_q) or any(not close(m, v, sc) for m, v in zip(mv, np.asarray(rv).tolist())):
+                ctx.disagree(f"_percentile[{method}] of block {i} vs Lean chunkPct", [float(m) for m in mv], np.asarray(rv).tolist())
+            # the two clauses the merge relies on, on the real chunk result
+            rl = [float(v) for v in np.asarray(rv).tolist()]
+            if abs(rl[0] - float(blk.min())) > 1e-9 * sc or abs(rl[-1] - float(blk.max())) > 1e-9 * sc:
+                ctx.fail("per-chunk percentile at 0 / 100 is not the chunk's min / max", observed=rl, expected=[float(blk.min()), float(blk.max())])
+            if any(v < float(blk.min()) - 1e-9 * sc or v > float(blk.max()) + 1e-9 * sc for v in rl):
+                ctx.fail("per-chunk percentile outside the chunk's range", observed=rl)
+            ctx.branch("chunk-diff")
+    # API level: the whole Lean pipeline (with NumPy's argsort permutation of the real chunk results) vs dask
+    with warnings.catch_warnings():
+        warnings.simplefilter("ignore")
+        try:
+            res = np.asarray(U.sync_compute(y)).tolist()
+        except ValueError:
+            res = "raised"
+    live = [np.asarray(rv, dtype=float) for rv, rn in (real_parts or []) if rn]
+    order = [int(k) for k in np.argsort(np.concatenate(live))] if live else Sym("stable")
+    if fq != sorted(fq):
+        # calc_q unsorted: negative weights, np.searchsorted on a non-monotone cumsum — outside the statement (and the
+        # merge model, which reads searchsorted as a count); the chunk level above is still compared
+        ctx.branch("unsorted q (chunk level only)")
+    elif exact:
+        r = ctx.lean(Sym("pct1d"), Sym(method), [enc_rat(q) for q in fq], enc_blocks, order)
+        if r[0] == "bad-order":
+            raise AssertionError("np.argsort permutation rejected by the model")
+        if r[0] != "ok" or res == "raised":
+            ctx.eq("da.percentile raises iff the model does", str(r[0]), "raised" if res == "raised" else "ok")
+        else:
+            mv = dec_rats(r[1])
+            sc = max(1.0, float(np.abs(a).max()))
+            if len(mv) != len(res) or any(not close(m, v, sc) for m, v in zip(mv, res)):
+                ctx.disagree(f"da.percentile[{method}] vs Lean percentile1d (exact)", [float(m) for m in mv], res)
+            ctx.branch("pipeline-diff")
+    if res == "raised":
+        if a.size and in_range:
+            ctx.fail("da.percentile raised on non-empty data with percentiles in [0, 100]", observed="raised")
+        ctx.branch("raises (empty data)" if not a.size else "raises (q out of range)")
+        return
+    if not in_range:
+        ctx.fail("da.percentile returned values for a percentile outside [0, 100]", observed=res)
+        return
+    if fq == sorted(fq):
+        oracle(ctx, "da.percentile", res, fq, float(a.min()), float(a.max()), max(1.0, float(np.abs(a).max())), method)
+    if 0 in chunks:
+        ctx.branch("empty chunk")
+    if len([c for c in chunks if c]) > 1:
+        ctx.branch("several non-empty chunks")
+    if len(set(a.tolist())) < a.size:
+        ctx.branch("duplicate data")
+    if any(c == 1 for c in chunks):
+        ctx.branch("one-element chunk")
+    ctx.branch("x:" + method)
+
+
+CASES = {"pctdata": case_pctdata, "joint": case_joint, "merge": case_merge, "pct": case_pct, "nanpct": case_nanpct}
 CASES = {k: U.pure_sources(v) for k, v in CASES.items()}
 
 
@@ -363,6 +487,30 @@ def gen_nanpct(ctx, n):
                          "method": rng.choice(METHODS), "keepdims": rng.random() < 0.3}
 
 
+def gen_pctdata(ctx, n):
+    rng = ctx.rng
+    for _ in range(n):
+        ln = rng.randint(0, 12) if rng.random() < 0.9 else rng.randint(13, 40)
+        chunks = U.rand_chunks_1d(rng, ln, zero_p=0.2)
+        if ln > 12:
+            cuts = sorted(rng.sample(range(1, ln), rng.randint(0, 3)))
+            chunks = tuple(b - a for a, b in zip([0] + cuts, cuts + [ln]))
+        is_int = rng.random() < 0.5
+        if is_int:
+            data = [rng.randint(-3, rng.choice([1, 3, 9])) for _ in range(ln)]
+        else:
+            data = [Fraction(rng.randint(-40, 40), rng.choice([1, 2, 4, 8])) for _ in range(ln)]
+        q = sorted(_rand_q(rng))
+        r = rng.random()
+        if r < 0.05:
+            q = q + [Fraction(rng.choice([101, 250]))]
+        elif r < 0.08:
+            q = [Fraction(-1)] + q
+        elif r < 0.13:
+            rng.shuffle(q)
+        yield "pctdata", {"data": _s(data), "int": is_int, "chunks": list(chunks), "q": _s(q), "method": rng.choice(METHODS)}
+
+
 def generate(ctx):
     yield "merge", {"method": "lower", "finalq": ["50"], "inputs": [{"q": ["0", "100"], "v": ["1", "2"], "N": 0}]}
     yield from gen_merge(ctx, ctx.n(900, 15000))
@@ -377,9 +525,11 @@ def generate(ctx):
             for it in items[1:]:
                 it["q"] = items[0]["q"]
         yield "joint", {"data": [rng.randint(0, 9) for _ in range(ln)], "chunks": list(U.rand_chunks_1d(rng, ln)), "items": items}
+    yield from gen_pctdata(ctx, ctx.n(160, 2500))     # extension round: generated last (older random streams unchanged)
 
 
 def search(ctx):
     yield from gen_merge(ctx, ctx.n(500))
     yield from gen_exhaustive(ctx)
     yield from gen_pct(ctx, ctx.n(300))
+    yield from gen_pctdata(ctx, ctx.n(200))
